@@ -2909,6 +2909,12 @@ func builtinMul(env *LEnv, v *LVal) *LVal {
 			return env.Errorf("argument is not a number: %v", c.Type)
 		}
 	}
+	if numericListType(v.Cells) == LFloat {
+		// A float anywhere makes the product a float, as for + and -.  Do not
+		// multiply the ints in front of it in int arithmetic first: that wraps,
+		// and (* 9223372036854775807 2 0.5) came out as -1.
+		return mulFloat(Int(1), v)
+	}
 	return mulInt(Int(1), v)
 }
 
